@@ -143,4 +143,188 @@ def replay(ctx, data):
         s = spect_violation_gm(c)
         print("spectator violation:", s)
         return bool(s)
+    if d.get("check") == "post":
+        sg = eval_post_spec(d)
+        print("post-state violation:", sg)
+        return bool(sg)
     return False
+
+
+# ------------------------------------------------------------------------------------------
+# second clause of C05: preparations, deletions and measurements leave the targets in the documented post-state,
+# uncorrelated with the rest, and change the rest only by the conditional update
+
+import strawberryfields as _sf
+from strawberryfields import ops as _ops
+
+_search_gates = search
+
+
+def _build(n, cmds, tail):
+    """tail: callable(q) appending the final op(s) inside the context."""
+    prog = _sf.Program(n)
+    with prog.context as q:
+        for name_, params, modes, dagger in cmds:
+            sfgen.make_op(name_, params, dagger) | tuple(q[m] for m in modes)
+        tail(q)
+    return prog
+
+
+def _engine(backend, cutoff=7):
+    if backend == "gaussian":
+        return _sf.Engine("gaussian")
+    if backend == "bosonic":
+        return _sf.Engine("bosonic")
+    return _sf.Engine("fock", backend_options={"cutoff_dim": cutoff, "pure": backend == "fock-pure"})
+
+
+def _vac_and_uncorrelated(state, backend, targets, n, tol):
+    """Targets in vacuum and uncorrelated with the rest?"""
+    if backend in ("gaussian", "bosonic"):
+        means, cov = bc.gauss_obs(state)
+        for t in targets:
+            idx = [t, t + n]
+            if np.abs(means[idx]).max() > tol or np.abs(cov[np.ix_(idx, idx)] - np.eye(2)).max() > tol:
+                return "target-not-vacuum"
+            rest = [i for i in range(2 * n) if i not in idx]
+            if rest and np.abs(cov[np.ix_(idx, rest)]).max() > tol:
+                return "target-correlated-with-rest"
+        return None
+    for t in targets:
+        r = state.reduced_dm([t])
+        vac = np.zeros_like(r)
+        vac[0, 0] = 1.0
+        tr = float(np.real(np.trace(r)))
+        if tr > 1e-9 and np.abs(r / tr - vac).max() > tol:
+            return "target-not-vacuum"
+    return None
+
+
+def gen_post_spec(rng, backend):
+    fock = backend.startswith("fock")
+    n = rng.randint(2, 3) if fock else rng.randint(2, 4)
+    pre = bc.weak_prefix(rng, n)
+    if fock:
+        pre = [c for c in pre if c[0] != "ThermalLossChannel"]
+    kind = rng.choice(["prep", "del", "homodyne", "heterodyne", "fock"] if not fock else ["prep", "del", "homodyne", "fock", "fock-twin"])
+    d = {"check": "post", "backend": backend, "kind": kind, "n": n, "pre": pre}
+    if kind == "prep":
+        d["target"] = rng.randrange(n)
+        d["prep"] = rng.choice(["Vacuum", "Coherent", "Squeezed", "Thermal"] if not fock else ["Vacuum", "Coherent", "Squeezed", "Fock"])
+    elif kind == "del":
+        d["target"] = rng.randrange(n)
+    elif kind in ("homodyne", "heterodyne"):
+        d["target"] = rng.randrange(n)
+        d["select"] = rng.random() < 0.5
+        d["angle"] = round(rng.uniform(-1, 1), 3)
+    elif kind == "fock":
+        d["targets"] = rng.sample(range(n), rng.randint(1, n))
+    else:
+        d.update({"n": 4, "pre": [], "order": rng.sample([0, 1, 2], 3)})
+    return d
+
+
+def eval_post_spec(d):
+    """Returns a signature string if the documented post-state does not hold, else None."""
+    backend, kind, n, pre = d["backend"], d["kind"], d["n"], d["pre"]
+    fock = backend.startswith("fock")
+    tol = 1e-6 if not fock else 5e-3
+    if kind == "prep":
+        t, pname = d["target"], d["prep"]
+        params = {"Vacuum": [], "Coherent": [0.3, 0.4], "Squeezed": [0.2, 0.5], "Thermal": [0.4], "Fock": [1]}[pname]
+        st = _engine(backend).run(_build(n, pre, lambda q: sfgen.make_op(pname, params) | q[t])).state
+        ref = _engine(backend).run(_build(1, [], lambda q: sfgen.make_op(pname, params) | q[0])).state
+        before = _engine(backend).run(_build(n, pre, lambda q: None)).state
+        spect = [m for m in range(n) if m != t]
+        if not fock:
+            m1, c1 = bc.gauss_obs(st)
+            mr, cr = bc.gauss_obs(ref)
+            m0, c0 = bc.gauss_obs(before)
+            idx = [t, t + n]
+            rest = [i for i in range(2 * n) if i not in idx]
+            if np.abs(m1[idx] - mr).max() > tol or np.abs(c1[np.ix_(idx, idx)] - cr).max() > tol:
+                return "prep:%s:target-not-prepared-state" % backend
+            if np.abs(c1[np.ix_(idx, rest)]).max() > tol:
+                return "prep:%s:target-correlated-with-rest" % backend
+            a0, a1 = bc.reduced_gauss(m0, c0, spect), bc.reduced_gauss(m1, c1, spect)
+            if max(np.abs(a0[0] - a1[0]).max(), np.abs(a0[1] - a1[1]).max()) > tol:
+                return "prep:%s:rest-changed" % backend
+        else:
+            if np.abs(st.reduced_dm([t]) - ref.reduced_dm([0])).max() > tol:
+                return "prep:fock:target-not-prepared-state"
+            if np.abs(st.reduced_dm(spect) - before.reduced_dm(spect)).max() > max(tol, bc.fock_tol(before)[0]):
+                return "prep:fock:rest-changed"
+        return None
+    if kind == "del":
+        t = d["target"]
+        st = _engine(backend).run(_build(n, pre, lambda q: _ops.Del | q[t])).state
+        before = _engine(backend).run(_build(n, pre, lambda q: None)).state
+        spect = [m for m in range(n) if m != t]
+        if not fock:
+            m1, c1 = bc.gauss_obs(st)
+            m0, c0 = bc.gauss_obs(before)
+            a0 = bc.reduced_gauss(m0, c0, spect)
+            if len(m1) != 2 * len(spect) or max(np.abs(a0[0] - m1).max(), np.abs(a0[1] - c1).max()) > tol:
+                return "del:%s:rest-changed" % backend
+        else:
+            r1 = st.reduced_dm(list(range(len(spect))))
+            if np.abs(r1 - before.reduced_dm(spect)).max() > max(tol, bc.fock_tol(before)[0]):
+                return "del:fock:rest-changed"
+        return None
+    if kind in ("homodyne", "heterodyne"):
+        if kind == "heterodyne" and fock:
+            return None
+        t, sel = d["target"], d["select"]
+        if kind == "homodyne":
+            op = _ops.MeasureHomodyne(d["angle"], select=0.3 if sel else None)
+        else:
+            op = _ops.MeasureHeterodyne(select=(0.2 + 0.1j) if sel else None)
+        st = _engine(backend).run(_build(n, pre, lambda q: op | q[t])).state
+        v = _vac_and_uncorrelated(st, backend, [t], n, tol if not fock else 2e-2)
+        return "measure:%s:%s:%s" % (backend.split("-")[0], kind, v) if v else None
+    if kind == "fock":
+        targets = d["targets"]
+        if not fock:
+            return None  # photon counting does not update the state on these backends (recorded under C06)
+        res = _engine(backend).run(_build(n, pre, lambda q: _ops.MeasureFock() | tuple(q[m] for m in targets)))
+        v = _vac_and_uncorrelated(res.state, backend, targets, n, 1e-6)
+        return "measure:fock:counting:%s" % v if v else None
+    # fock-twin: the outcome reported for a mode must be that mode's, and its twin must be left in that number state
+    order = d["order"]
+
+    def tail(q):
+        _ops.S2gate(0.5, 0.0) | (q[0], q[3])
+        _ops.Fock(1) | q[1]
+        _ops.Fock(2) | q[2]
+        _ops.MeasureFock() | tuple(q[m] for m in order)
+    eng = _sf.Engine("fock", backend_options={"cutoff_dim": 5, "pure": backend == "fock-pure"})
+    res = eng.run(_build(4, [], tail))
+    sample = [int(x) for x in res.samples[0]]  # ascending mode order: modes 0, 1, 2
+    if sample[1] != 1 or sample[2] != 2:
+        return "measure:fock:counting:outcome-assigned-to-wrong-mode"
+    twin = res.state.reduced_dm([3])
+    if abs(twin[sample[0], sample[0]].real - 1.0) > 1e-6:
+        return "measure:fock:counting:conditional-state-of-rest-wrong"
+    return None
+
+
+def post_state_case(ctx, rng, backend):
+    d = gen_post_spec(rng, backend)
+    return eval_post_spec(d), d
+
+
+def search(ctx):
+    _search_gates(ctx)
+    rng = ctx.rng
+    per = ctx.budget({"gaussian": 40, "bosonic": 40, "fock-pure": 10, "fock-mixed": 10},
+                     {"gaussian": 400, "bosonic": 400, "fock-pure": 80, "fock-mixed": 80})
+    for backend, cnt in per.items():
+        for _ in range(cnt):
+            try:
+                sig, data = post_state_case(ctx, rng, backend)
+            except Exception as e:
+                ctx.counterexample("post:%s:raises:%s" % (backend, type(e).__name__), "post-state case raised %r" % e, {"check": "post-raise", "backend": backend})
+                continue
+            ctx.case({k: v for k, v in data.items() if k != "pre"}, nontrivial=True, bucket="post-%s-%s" % (backend, data.get("kind")))
+            if sig:
+                ctx.counterexample(sig, "after %s on the %s backend the documented post-state does not hold (%s)" % (data.get("kind"), backend, sig), data)
